@@ -142,8 +142,9 @@ func rulesC05(c *Ctx) {
 			if rs, ok := ex.Node.(*ast.ReturnStmt); ok && len(rs.Results) == 1 {
 				if cl, ok := unparen(rs.Results[0]).(*ast.CallExpr); ok && p.IsCall(cl, "resources.ComponentWiseMin") {
 					min = true
-				} else if id, ok := unparen(rs.Results[0]).(*ast.Ident); ok && id.Name == "childHeadroom" {
-					okN := p.Holds(ex.State, p.NilAtom(true, func(t Term) bool { return p.Src(t.E) == "headroom" }))
+				} else if p.identIn(rs.Results[0], p.assignedFrom(fn, "ugm.QueueTracker.headroom")) {
+					own := p.assignedFrom(fn, "resources.SubOnlyExisting")
+					okN := p.Holds(ex.State, p.NilAtom(true, func(t Term) bool { return p.identIn(t.E, own) }))
 					c.Check("C05.a", "child headroom returned only without an own limit", rs, okN, "QueueTracker.headroom returns the child's value although this level has a limit")
 				}
 			}
@@ -158,14 +159,42 @@ func rulesC05(c *Ctx) {
 				continue
 			}
 			n++
-			child := p.Holds(ex.State, p.BoolAtom(true, func(t Term) bool { return p.Src(t.E) == "childCanRunApp" }))
+			below := p.assignedFrom(fn, "ugm.QueueTracker.canRunApp")
+			child := p.Holds(ex.State, p.BoolAtom(true, func(t Term) bool { return p.identIn(t.E, below) }))
 			c.Check("C05.a", "tracker canRunApp: a refusing level below refuses", rs, child, "QueueTracker.canRunApp can answer true although a child level refused; facts: %v", p.FactStrings(ex.State))
 		}
 		c.Floor("C05.a", "positive answers of QueueTracker.canRunApp", n, 2)
 		cmp := false
 		ast.Inspect(fn.Decl.Body, func(nn ast.Node) bool {
-			if b, ok := nn.(*ast.BinaryExpr); ok && b.Op == tokGTR && p.Src(b.X) == "running" && strings.Contains(p.Src(b.Y), "maxRunningApps") {
-				cmp = true
+			// <number of running applications + 1> > maxRunningApps (either orientation); the count is a local
+			// defined as len(runningApplications) + 1
+			if b, ok := nn.(*ast.BinaryExpr); ok && (b.Op == tokGTR || b.Op == tokLSS) {
+				big, small := b.X, b.Y
+				if b.Op == tokLSS {
+					big, small = b.Y, b.X
+				}
+				if strings.Contains(p.Src(small), "maxRunningApps") {
+					if st := p.StateAt(fn, b); st != nil {
+						cs := p.CanonSrc(big, st.Env, 0)
+						if strings.Contains(cs, "len(") && strings.Contains(cs, "runningApplications") && strings.Contains(cs, "+ 1") {
+							cmp = true
+						}
+					}
+					// the count is assigned on one branch only (declared first): accept a local that is assigned such a value
+					if id, isID := unparen(big).(*ast.Ident); isID {
+						ast.Inspect(fn.Decl.Body, func(m ast.Node) bool {
+							if as, isA := m.(*ast.AssignStmt); isA && len(as.Lhs) == 1 && len(as.Rhs) == 1 {
+								if l, isL := as.Lhs[0].(*ast.Ident); isL && p.ObjOf(l) == p.ObjOf(id) {
+									r := p.Src(as.Rhs[0])
+									if strings.Contains(r, "len(") && strings.Contains(r, "runningApplications") && strings.Contains(r, "+ 1") {
+										cmp = true
+									}
+								}
+							}
+							return true
+						})
+					}
+				}
 			}
 			return true
 		})
@@ -520,31 +549,33 @@ func rulesC09(c *Ctx) {
 	// ---- C09.c exclusion
 	c.Rule("C09.c", "the unreserved iterator is built with acceptUnreserved and handed out by GetNodeIterator; normal scheduling receives (unreserved, full) in that order; the filters are never reassigned; the iterator honours accept")
 	if fn := c.MustFunc("C09.c", "objects.NewNodeCollection"); fn != nil {
-		okU, okF := false, false
-		for _, call := range p.callsIn(fn, "objects.NewTreeIterator") {
-			as, ok := p.Parent(call).(*ast.AssignStmt)
-			if !ok {
-				continue
+		// what a field of the collection is assigned: NewTreeIterator(<filter>, ...) directly or through a local
+		filterOf := func(field string) (string, int) {
+			got, n := "", 0
+			for _, w := range p.FieldWrites(p.Field(field)) {
+				if w.Arg == nil {
+					continue
+				}
+				n++
+				for _, t := range p.chain(T(w.Arg, p.StateAt(w.Fn, w.Node))) {
+					call, ok := unparen(t.E).(*ast.CallExpr)
+					if !ok || !p.IsCall(call, "objects.NewTreeIterator") || len(call.Args) < 1 {
+						continue
+					}
+					if id, isID := unparen(call.Args[0]).(*ast.Ident); isID {
+						if o := p.ObjOf(id); o != nil && o.Pkg() != nil && o.Parent() == o.Pkg().Scope() {
+							got = p.PkgShort(o.Pkg().Path()) + "." + o.Name()
+						}
+					}
+				}
 			}
-			lhs := p.Src(as.Lhs[0])
-			if lhs == "unreservedIterator" && p.Src(call.Args[0]) == "acceptUnreserved" {
-				okU = true
-			}
-			if lhs == "fullIterator" && p.Src(call.Args[0]) == "acceptAll" {
-				okF = true
-			}
+			return got, n
 		}
-		c.Check("C09.c", "unreserved iterator filters with acceptUnreserved", fn.Decl, okU, "unreservedIterator is not NewTreeIterator(acceptUnreserved, ...)")
-		c.Check("C09.c", "full iterator filters with acceptAll", fn.Decl, okF, "fullIterator is not NewTreeIterator(acceptAll, ...)")
-		wired := 0
-		for _, w := range p.FieldWrites(p.Field("objects.baseNodeCollection.unreservedIterator")) {
-			if p.Src(w.Arg) == "unreservedIterator" {
-				wired++
-			} else {
-				c.Check("C09.c", "unreservedIterator wiring in "+w.Fn.Name, w.Node, false, "baseNodeCollection.unreservedIterator = %s", p.Src(w.Arg))
-			}
-		}
-		c.Check("C09.c", "collection stores the unreserved iterator", fn.Decl, wired == 1, "unreservedIterator field is not assigned from the unreserved iterator")
+		uf, un := filterOf("objects.baseNodeCollection.unreservedIterator")
+		ff, fnn := filterOf("objects.baseNodeCollection.fullIterator")
+		c.Check("C09.c", "unreserved iterator filters with acceptUnreserved", fn.Decl, uf == "objects.acceptUnreserved", "baseNodeCollection.unreservedIterator is built with filter %q, expected acceptUnreserved", uf)
+		c.Check("C09.c", "full iterator filters with acceptAll", fn.Decl, ff == "objects.acceptAll", "baseNodeCollection.fullIterator is built with filter %q, expected acceptAll", ff)
+		c.Check("C09.c", "collection stores the unreserved iterator", fn.Decl, un == 1 && fnn == 1, "the iterator fields are assigned %d / %d times, expected once each (in the constructor)", un, fnn)
 	}
 	for _, pr := range [][2]string{{"objects.baseNodeCollection.GetNodeIterator", "objects.baseNodeCollection.unreservedIterator"}, {"objects.baseNodeCollection.GetFullNodeIterator", "objects.baseNodeCollection.fullIterator"}} {
 		fn := c.MustFunc("C09.c", pr[0])
@@ -740,7 +771,17 @@ func rulesC09(c *Ctx) {
 		for _, call := range calls {
 			st := p.StateAt(fn, call)
 			ok := p.Holds(st, anyReq(
-				p.NilAtom(true, func(t Term) bool { return p.Src(t.E) == "ask" }),
+				p.NilAtom(true, func(t Term) bool {
+					// the ask looked up for the reservation: sa.requests[<key of the reservation>]
+					for _, ct := range p.chain(t) {
+						if ix, isIx := unparen(ct.E).(*ast.IndexExpr); isIx {
+							if f := p.SelField(ix.X); f != nil && f.Name() == "requests" {
+								return true
+							}
+						}
+					}
+					return false
+				}),
 				p.CallAtom(true, nil, "objects.Allocation.IsAllocated")))
 			c.Check("C09.d", "stale reservation (ask gone or allocated) is un-reserved", call, ok, "Unreserved result without (ask == nil || ask.IsAllocated())")
 		}
